@@ -501,7 +501,24 @@ def run_switch(shard, acc):
                 if tuple(row._fields) != tuple(names_all[:nf]) or [round(v * CLK) for v in row] != list(w):
                     viols.append(("cpu_times_wrong:after_procfs_switch", f"{where}: cpu_times({form}) on a {nf}-field procfs -> {row!r} want ticks {w}"))
                     break
-        # (cpu_percent() right after a switch would compare samples of two different machines: not asserted)
+        # cpu_percent() right after a switch would compare samples of two different machines: which figure it answers is not
+        # asserted - but it answers (the thread's previous sample may have another field layout), and the call after it
+        # measures an interval without any tick: zero everywhere
+        for rep in (0, 1):
+            for fn in ("cpu_percent", "cpu_times_percent"):
+                for percpu in (False, True):
+                    acc.count("percent_calls_after_procfs_switch")
+                    try:
+                        got = getattr(ps, fn)(percpu=percpu)
+                    except Exception as e:  # noqa: BLE001
+                        viols.append((f"{fn}_exception:{type(e).__name__}:after_procfs_switch",
+                                      f"{where}: {fn}(percpu={percpu}) call #{rep + 1} on a {nf}-field procfs raised {e!r}"))
+                        continue
+                    if rep == 1:
+                        rows = got if percpu else [got]
+                        flat = [v for row in rows for v in (row if fn == "cpu_times_percent" else [row])]
+                        if any(v != 0.0 for v in flat):
+                            viols.append((f"{fn}_wrong:after_procfs_switch", f"{where}: second {fn}(percpu={percpu}) with no tick in between -> {got!r}"))
     with vk:
         try:
             check("first visit of B", "/vprocB", snapb, nfb, True)
